@@ -1009,3 +1009,306 @@ Proof.
       * intros x y Hx Hy. apply (Hall x y); [apply Hin_a; exact Hx|apply Hin_b; exact Hy|].
         apply Hag; right; [apply Hin_a; exact Hx|apply Hin_b; exact Hy].
 Qed.
+
+(* ======================================================================== *)
+(* Non-zero gap-open (C10): what does hold of the single-state recurrence.
+   With gap-open <= 0 the returned score is at least the optimum under linear
+   gap costs (gap-open charged on every gap step).                              *)
+Section Lower.
+Variable w : byte -> byte -> Z.
+
+Fixpoint lscore (a b : bytes) (al : list step) : option Z :=
+  match al with
+  | [] => Some 0
+  | SMatch :: r =>
+    match a, b with
+    | x :: a', y :: b' => option_map (Z.add (w x y)) (lscore a' b' r)
+    | _, _ => None
+    end
+  | SDel :: r =>
+    match a with
+    | x :: a' => option_map (Z.add (w x Gap + w Gap Gap)) (lscore a' b r)
+    | [] => None
+    end
+  | SIns :: r =>
+    match b with
+    | y :: b' => option_map (Z.add (w Gap y + w Gap Gap)) (lscore a b' r)
+    | [] => None
+    end
+  | SNone :: _ => None
+  end.
+
+Lemma score_linear_lscore : forall g al a b, agrees w g a b ->
+  score_linear_g g a b al = o2o (lscore a b al).
+Proof.
+  intros g. induction al as [|s r IH]; intros a b H; [reflexivity|].
+  assert (Hgg : g Gap Gap = Ok (w Gap Gap)) by (eapply agrees_gg; eauto).
+  destruct s; cbn [score_linear_g lscore].
+  - reflexivity.
+  - destruct a as [|x a']; [reflexivity|]. destruct b as [|y b']; [reflexivity|].
+    rewrite (H x y) by (right; left; reflexivity). cbn [obind].
+    rewrite IH by (eapply agrees_tl_a; eapply agrees_tl_b; eauto).
+    destruct (lscore a' b' r); reflexivity.
+  - destruct a as [|x a']; [reflexivity|].
+    rewrite (H x Gap) by (try (right; left; reflexivity); left; reflexivity). cbn [obind].
+    rewrite Hgg. cbn [obind].
+    rewrite IH by (eapply agrees_tl_a; eauto).
+    destruct (lscore a' b r); reflexivity.
+  - destruct b as [|y b']; [reflexivity|].
+    rewrite (H Gap y) by (try (right; left; reflexivity); left; reflexivity). cbn [obind].
+    rewrite Hgg. cbn [obind].
+    rewrite IH by (eapply agrees_tl_b; eauto).
+    destruct (lscore a b' r); reflexivity.
+Qed.
+
+Lemma lscore_snoc_none : forall al a b, lscore a b (al ++ [SNone]) = None.
+Proof.
+  induction al as [|s r IH]; intros a b; [reflexivity|].
+  destruct s; cbn [app lscore]; try reflexivity.
+  - destruct a; [reflexivity|]. destruct b; [reflexivity|]. rewrite IH. reflexivity.
+  - destruct a; [reflexivity|]. rewrite IH. reflexivity.
+  - destruct b; [reflexivity|]. rewrite IH. reflexivity.
+Qed.
+
+Lemma lscore_snoc_match : forall al a b x y, consumes al = (length a, length b) ->
+  lscore (a ++ [x]) (b ++ [y]) (al ++ [SMatch]) = option_map (fun z => z + w x y) (lscore a b al).
+Proof.
+  induction al as [|s r IH]; intros a b x y Hc.
+  - cbn in Hc. destruct a; destruct b; try discriminate. cbn. f_equal. lia.
+  - cbn [consumes] in Hc. destruct (consumes r) as [i j] eqn:E. destruct s.
+    + reflexivity.
+    + destruct a as [|x0 a']; [discriminate|]. destruct b as [|y0 b']; [discriminate|].
+      cbn in Hc. injection Hc as Hi Hj. subst i j.
+      cbn [app lscore]. rewrite (IH a' b' x y eq_refl). apply omap_comm.
+    + destruct a as [|x0 a']; [discriminate|].
+      cbn in Hc. injection Hc as Hi Hj. subst i j.
+      cbn [app lscore]. rewrite (IH a' b x y eq_refl). apply omap_comm.
+    + destruct b as [|y0 b']; [destruct a; discriminate|].
+      cbn in Hc. injection Hc as Hi Hj. subst i j.
+      cbn [app lscore]. rewrite (IH a b' x y eq_refl). apply omap_comm.
+Qed.
+
+Lemma lscore_snoc_del : forall al a b x, consumes al = (length a, length b) ->
+  lscore (a ++ [x]) b (al ++ [SDel]) = option_map (fun z => z + (w x Gap + w Gap Gap)) (lscore a b al).
+Proof.
+  induction al as [|s r IH]; intros a b x Hc.
+  - cbn in Hc. destruct a; destruct b; try discriminate. cbn. f_equal. lia.
+  - cbn [consumes] in Hc. destruct (consumes r) as [i j] eqn:E. destruct s.
+    + reflexivity.
+    + destruct a as [|x0 a']; [discriminate|]. destruct b as [|y0 b']; [discriminate|].
+      cbn in Hc. injection Hc as Hi Hj. subst i j.
+      cbn [app lscore]. rewrite (IH a' b' x eq_refl). apply omap_comm.
+    + destruct a as [|x0 a']; [discriminate|].
+      cbn in Hc. injection Hc as Hi Hj. subst i j.
+      cbn [app lscore]. rewrite (IH a' b x eq_refl). apply omap_comm.
+    + destruct b as [|y0 b']; [destruct a; discriminate|].
+      cbn in Hc. injection Hc as Hi Hj. subst i j.
+      cbn [app lscore]. rewrite (IH a b' x eq_refl). apply omap_comm.
+Qed.
+
+Lemma lscore_snoc_ins : forall al a b y, consumes al = (length a, length b) ->
+  lscore a (b ++ [y]) (al ++ [SIns]) = option_map (fun z => z + (w Gap y + w Gap Gap)) (lscore a b al).
+Proof.
+  induction al as [|s r IH]; intros a b y Hc.
+  - cbn in Hc. destruct a; destruct b; try discriminate. cbn. f_equal. lia.
+  - cbn [consumes] in Hc. destruct (consumes r) as [i j] eqn:E. destruct s.
+    + reflexivity.
+    + destruct a as [|x0 a']; [discriminate|]. destruct b as [|y0 b']; [discriminate|].
+      cbn in Hc. injection Hc as Hi Hj. subst i j.
+      cbn [app lscore]. rewrite (IH a' b' y eq_refl). apply omap_comm.
+    + destruct a as [|x0 a']; [discriminate|].
+      cbn in Hc. injection Hc as Hi Hj. subst i j.
+      cbn [app lscore]. rewrite (IH a' b y eq_refl). apply omap_comm.
+    + destruct b as [|y0 b']; [destruct a; discriminate|].
+      cbn in Hc. injection Hc as Hi Hj. subst i j.
+      cbn [app lscore]. rewrite (IH a b' y eq_refl). apply omap_comm.
+Qed.
+
+Hypothesis open_nonpos : w Gap Gap <= 0.
+
+Lemma opn_ge : forall c, w Gap Gap <= opn w c.
+Proof. intros c. unfold opn. destruct c; lia. Qed.
+
+Lemma global_lower : forall al ra rb s,
+  consumes al = (length ra, length rb) ->
+  lscore (rev ra) (rev rb) al = Some s ->
+  s <= fst (pcell w clamp_none ra rb).
+Proof.
+  induction al as [|st al IH] using rev_ind; intros ra rb s Hc Hs.
+  - cbn in Hc. destruct ra; destruct rb; try discriminate. cbn in Hs. injection Hs as <-. cbn. lia.
+  - destruct (consumes al) as [i j] eqn:E.
+    rewrite (consumes_snoc al st i j E) in Hc. destruct st.
+    + rewrite lscore_snoc_none in Hs. discriminate.
+    + destruct ra as [|x ra]; [discriminate|]. destruct rb as [|y rb]; [discriminate|].
+      cbn [length] in Hc. injection Hc as Hi Hj. subst i j.
+      cbn [rev] in Hs. rewrite lscore_snoc_match in Hs by (rewrite E, !rev_length; reflexivity).
+      apply omap_some in Hs. destruct Hs as (s0 & Hs0 & ->). cbv beta.
+      pose proof (IH ra rb s0 eq_refl Hs0) as Hle.
+      rewrite pcell_cons_cons. rewrite clamp_none_id.
+      match goal with |- _ <= fst (decide ?m ?d ?i) => pose proof (decide_max m d i) end. lia.
+    + destruct ra as [|x ra]; [discriminate|].
+      cbn [length] in Hc. injection Hc as Hi Hj. subst i j.
+      cbn [rev] in Hs. rewrite lscore_snoc_del in Hs by (rewrite E, !rev_length; reflexivity).
+      apply omap_some in Hs. destruct Hs as (s0 & Hs0 & ->). cbv beta.
+      pose proof (IH ra rb s0 eq_refl Hs0) as Hle.
+      destruct rb as [|y rb].
+      * rewrite pcell_cons_nil. rewrite clamp_none_id. cbn [fst].
+        pose proof (opn_ge (@is_nil N ra)). lia.
+      * rewrite pcell_cons_cons. rewrite clamp_none_id.
+        match goal with |- _ <= fst (decide ?m (_ + opn w ?c) ?i) =>
+          pose proof (decide_max m (fst (pcell w clamp_none ra (y :: rb)) + w x Gap + opn w c) i);
+          pose proof (opn_ge c) end. lia.
+    + destruct rb as [|y rb]; [destruct ra; discriminate|].
+      cbn [length] in Hc. injection Hc as Hi Hj. subst i j.
+      cbn [rev] in Hs. rewrite lscore_snoc_ins in Hs by (rewrite E, !rev_length; reflexivity).
+      apply omap_some in Hs. destruct Hs as (s0 & Hs0 & ->). cbv beta.
+      pose proof (IH ra rb s0 eq_refl Hs0) as Hle.
+      destruct ra as [|x ra].
+      * rewrite pcell_nil_cons. rewrite clamp_none_id. cbn [fst].
+        pose proof (opn_ge (@is_nil N rb)). lia.
+      * rewrite pcell_cons_cons. rewrite clamp_none_id.
+        match goal with |- _ <= fst (decide ?m ?d (_ + opn w ?c)) =>
+          pose proof (decide_max m d (fst (pcell w clamp_none (x :: ra) rb) + w Gap y + opn w c));
+          pose proof (opn_ge c) end. lia.
+Qed.
+
+End Lower.
+
+Theorem global_affine_lower_g : forall g a b o, covers_g g a b -> gap_open_g g = Ok o -> o <= 0 ->
+  exists gs, global_score_g g a b = Ok gs /\
+    forall al s, consumes al = (length a, length b) -> score_linear_g g a b al = Ok s -> s <= gs.
+Proof.
+  intros g a b o Hcov Hopen Ho. destruct (global_g_run g a b Hcov) as (al0 & Hr & _ & _).
+  exists (fst (pcell (weights g) clamp_none (rev a) (rev b))). split.
+  - unfold global_score_g. rewrite Hr. reflexivity.
+  - intros al s Hc Hs.
+    rewrite (score_linear_lscore (weights g) g al a b (covers_agrees g a b Hcov)) in Hs.
+    apply o2o_ok in Hs.
+    apply (global_lower (weights g)) with (al := al).
+    + unfold weights. unfold gap_open_g in Hopen. rewrite Hopen. exact Ho.
+    + rewrite !rev_length. exact Hc.
+    + rewrite !rev_involutive. exact Hs.
+Qed.
+
+(* ---- the same lower bound for Local --------------------------------------------- *)
+Section LocalLower.
+Variable w : byte -> byte -> Z.
+Notation lc := (pcell w clamp_local).
+Hypothesis open_nonpos : w Gap Gap <= 0.
+
+Lemma local_lower : forall al pa pb ra0 rb0 s,
+  consumes al = (length pa, length pb) ->
+  lscore w (rev pa) (rev pb) al = Some s ->
+  s <= fst (lc (pa ++ ra0) (pb ++ rb0)).
+Proof.
+  induction al as [|st al IH] using rev_ind; intros pa pb ra0 rb0 s Hc Hs.
+  - cbn in Hc. destruct pa; destruct pb; try discriminate. cbn in Hs. injection Hs as <-.
+    cbn [app]. apply lc_nonneg.
+  - destruct (consumes al) as [i j] eqn:E.
+    rewrite (consumes_snoc al st i j E) in Hc. destruct st.
+    + rewrite lscore_snoc_none in Hs. discriminate.
+    + destruct pa as [|x pa]; [discriminate|]. destruct pb as [|y pb]; [discriminate|].
+      cbn [length] in Hc. injection Hc as Hi Hj. subst i j.
+      cbn [rev] in Hs. rewrite lscore_snoc_match in Hs by (rewrite E, !rev_length; reflexivity).
+      apply omap_some in Hs. destruct Hs as (s0 & Hs0 & ->). cbv beta.
+      pose proof (IH pa pb ra0 rb0 s0 eq_refl Hs0) as Hle.
+      cbn [app]. rewrite pcell_cons_cons.
+      match goal with |- _ <= fst (clamp_local ?c) => pose proof (clamp_local_ge c) end.
+      match goal with H : fst (decide ?m ?d ?i) <= _ /\ _ |- _ => pose proof (decide_max m d i) end. lia.
+    + destruct pa as [|x pa]; [discriminate|].
+      cbn [length] in Hc. injection Hc as Hi Hj. subst i j.
+      cbn [rev] in Hs. rewrite lscore_snoc_del in Hs by (rewrite E, !rev_length; reflexivity).
+      apply omap_some in Hs. destruct Hs as (s0 & Hs0 & ->). cbv beta.
+      pose proof (IH pa pb ra0 rb0 s0 eq_refl Hs0) as Hle.
+      cbn [app]. destruct (pb ++ rb0) as [|y rbb].
+      * rewrite pcell_cons_nil.
+        match goal with |- _ <= fst (clamp_local (_ + opn w ?c, _)) =>
+          pose proof (opn_ge w open_nonpos c) end.
+        match goal with |- _ <= fst (clamp_local ?c) => pose proof (clamp_local_ge c) end.
+        cbn [fst] in *. lia.
+      * rewrite pcell_cons_cons.
+        match goal with |- _ <= fst (clamp_local ?c) => pose proof (clamp_local_ge c) end.
+        match goal with H : fst (decide ?m (?d0 + opn w ?c) ?i) <= _ /\ _ |- _ =>
+          pose proof (decide_max m (d0 + opn w c) i); pose proof (opn_ge w open_nonpos c) end.
+        lia.
+    + destruct pb as [|y pb]; [destruct pa; discriminate|].
+      cbn [length] in Hc. injection Hc as Hi Hj. subst i j.
+      cbn [rev] in Hs. rewrite lscore_snoc_ins in Hs by (rewrite E, !rev_length; reflexivity).
+      apply omap_some in Hs. destruct Hs as (s0 & Hs0 & ->). cbv beta.
+      pose proof (IH pa pb ra0 rb0 s0 eq_refl Hs0) as Hle.
+      cbn [app]. destruct (pa ++ ra0) as [|x raa].
+      * rewrite pcell_nil_cons.
+        match goal with |- _ <= fst (clamp_local (_ + opn w ?c, _)) =>
+          pose proof (opn_ge w open_nonpos c) end.
+        match goal with |- _ <= fst (clamp_local ?c) => pose proof (clamp_local_ge c) end.
+        cbn [fst] in *. lia.
+      * rewrite pcell_cons_cons.
+        match goal with |- _ <= fst (clamp_local ?c) => pose proof (clamp_local_ge c) end.
+        match goal with H : fst (decide ?m ?d (?i0 + opn w ?c)) <= _ /\ _ |- _ =>
+          pose proof (decide_max m d (i0 + opn w c)); pose proof (opn_ge w open_nonpos c) end.
+        lia.
+Qed.
+
+End LocalLower.
+
+Lemma lscore_fits : forall w al a b s, lscore w a b al = Some s ->
+  (fst (consumes al) <= length a)%nat /\ (snd (consumes al) <= length b)%nat.
+Proof.
+  intros w. induction al as [|st r IH]; intros a b s H; [cbn; lia|].
+  cbn [consumes]. destruct (consumes r) as [i j] eqn:E. destruct st; cbn [lscore] in H.
+  - discriminate.
+  - destruct a as [|x a]; [discriminate|]. destruct b as [|y b]; [discriminate|].
+    apply omap_some in H. destruct H as (s0 & H & _). apply IH in H. cbn in *. lia.
+  - destruct a as [|x a]; [discriminate|].
+    apply omap_some in H. destruct H as (s0 & H & _). apply IH in H. cbn in *. lia.
+  - destruct b as [|y b]; [discriminate|].
+    apply omap_some in H. destruct H as (s0 & H & _). apply IH in H. cbn in *. lia.
+Qed.
+
+Lemma lscore_app_ignore : forall w al a1 b1 a2 b2, consumes al = (length a1, length b1) ->
+  lscore w (a1 ++ a2) (b1 ++ b2) al = lscore w a1 b1 al.
+Proof.
+  intros w. induction al as [|s r IH]; intros a1 b1 a2 b2 Hc; [reflexivity|].
+  cbn [consumes] in Hc. destruct (consumes r) as [i j] eqn:E. destruct s.
+  - reflexivity.
+  - destruct a1 as [|x a1]; [discriminate|]. destruct b1 as [|y b1]; [discriminate|].
+    cbn in Hc. injection Hc as Hi Hj. subst i j.
+    cbn [app lscore]. rewrite (IH a1 b1 a2 b2 eq_refl). reflexivity.
+  - destruct a1 as [|x a1]; [discriminate|].
+    cbn in Hc. injection Hc as Hi Hj. subst i j.
+    cbn [app lscore]. rewrite (IH a1 b1 a2 b2 eq_refl). reflexivity.
+  - destruct b1 as [|y b1]; [destruct a1; discriminate|].
+    cbn in Hc. injection Hc as Hi Hj. subst i j.
+    cbn [app lscore]. rewrite (IH a1 b1 a2 b2 eq_refl). reflexivity.
+Qed.
+
+Theorem local_affine_lower_g : forall g a b o, covers_g g a b -> gap_open_g g = Ok o -> o <= 0 ->
+  exists ls, local_score_g g a b = Ok ls /\
+    forall i j al s, score_linear_g g (skipn i a) (skipn j b) al = Ok s -> s <= ls.
+Proof.
+  intros g a b o Hcov Hopen Ho. pose proof (covers_agrees g a b Hcov) as Hag.
+  destruct (local_g_run g a b Hcov) as (pa & ra & pb & rb & al0 & ra0 & rb0 & Ha & Hb & _ & Hmax & Hrun).
+  set (w := weights g) in *.
+  assert (Hon : w Gap Gap <= 0) by (unfold w, weights; unfold gap_open_g in Hopen; rewrite Hopen; exact Ho).
+  exists (fst (pcell w clamp_local ra rb)). split.
+  - unfold local_score_g. rewrite Hrun. cbn [obind]. rewrite local_result_score. reflexivity.
+  - intros i j al s Hs.
+    assert (Hag' : agrees w g (skipn i a) (skipn j b)).
+    { apply (agrees_incl w g a b); [| |exact Hag]; intros u Hu; eapply in_skipn; eauto. }
+    rewrite (score_linear_lscore w g al _ _ Hag') in Hs. apply o2o_ok in Hs.
+    destruct (lscore_fits w al _ _ s Hs) as [Hfa Hfb].
+    destruct (consumes al) as [na nb] eqn:Ec. cbn [fst snd] in *.
+    rewrite <- (firstn_skipn na (skipn i a)), <- (firstn_skipn nb (skipn j b)) in Hs.
+    rewrite lscore_app_ignore in Hs by (rewrite Ec, !firstn_length, !Nat.min_l by lia; reflexivity).
+    set (A1 := firstn na (skipn i a)) in *. set (B1 := firstn nb (skipn j b)) in *.
+    assert (Hra : rev a = rev (skipn na (skipn i a)) ++ (rev A1 ++ rev (firstn i a))).
+    { rewrite <- !rev_app_distr. unfold A1. rewrite app_assoc_reverse.
+      rewrite (firstn_skipn na), (firstn_skipn i). reflexivity. }
+    assert (Hrb : rev b = rev (skipn nb (skipn j b)) ++ (rev B1 ++ rev (firstn j b))).
+    { rewrite <- !rev_app_distr. unfold B1. rewrite app_assoc_reverse.
+      rewrite (firstn_skipn nb), (firstn_skipn j). reflexivity. }
+    eapply Z.le_trans; [|apply (Hmax _ _ _ _ Hra Hrb)].
+    apply (local_lower w Hon al (rev A1) (rev B1) _ _ s).
+    + rewrite Ec, !rev_length. unfold A1, B1. rewrite !firstn_length, !Nat.min_l by lia. reflexivity.
+    + rewrite !rev_involutive. exact Hs.
+Qed.
